@@ -89,6 +89,120 @@ func (e *Env) c05PercentPath() {
 	}
 }
 
+// c05EmbeddedMethods (round 5, C05-m9): a converter interface may take methods from an interface it embeds - declared in
+// the setup file or in ANOTHER file of the package.  The warning for a field such a method leaves unmatched has to carry
+// the position of that method (or of its notation), i.e. the file and line where the method is written.
+func (e *Env) c05EmbeddedMethods() {
+	const types = "type S struct{ A int }\n\ntype D struct {\n\tA     int\n\tExtra string\n}\n"
+	plainI := func(note string) string {
+		m := "\tInherited(*S) *D\n"
+		if note != "" {
+			m = "\t// " + note + "\n" + m
+		}
+		return "// Part is an ordinary interface.\ntype Part interface {\n" + m + "}\n"
+	}
+	for where := 0; where < 4; where++ { // 0 same file before, 1 same file after, 2 sibling file, 3 sibling file, method far below the setup file's last line
+		for ni, note := range []string{"", ":map Missing Extra", ":skip A"} {
+			conv := "type Convergen interface {\n\tPart\n\tOwn(*S) *D\n}\n"
+			setup := "//go:build convergen\n\npackage p\n\n"
+			files := map[string]string{"go.mod": "module example.com/emb\n\ngo 1.19\n"}
+			declFile := "setup.go"
+			switch where {
+			case 0:
+				setup += types + "\n" + plainI(note) + "\n" + conv
+			case 1:
+				setup += types + "\n" + conv + "\n" + plainI(note)
+			case 2:
+				setup += types + "\n" + conv
+				files["p/parts.go"] = "//go:build convergen\n\npackage p\n\n" + plainI(note)
+				declFile = "parts.go"
+			case 3:
+				setup += types + "\n" + conv
+				files["p/parts.go"] = "//go:build convergen\n\npackage p\n\n" + strings.Repeat("// filler\n", 60) + "\n" + plainI(note)
+				declFile = "parts.go"
+			}
+			files["p/setup.go"] = setup
+			id := fmt.Sprintf("emb_%d_%d", where, ni)
+			root := filepath.Join(e.Scratch, "emb", id)
+			_ = os.RemoveAll(root)
+			_ = histfs.WriteTree(root, files)
+			res := e.Runner.Run(filepath.Join(root, "p"), []string{"setup.go"})
+			out, _ := os.ReadFile(filepath.Join(root, "p", "setup.gen.go"))
+			_ = os.RemoveAll(root)
+			e.Rep.AddStates(1)
+			e.Rep.AddTransitions(1)
+			e.Rep.AddEvaluations(1)
+			e.Rep.AddValidated(1)
+			e.Rep.Outcome("embedded-method")
+			e.Rep.Nontrivial(id)
+			report1 := func(key, what string) {
+				e.Rep.Report(report.Finding{Key: fmt.Sprintf("C05|embedded-method|%s|where=%d", key, where), CellID: id, What: what,
+					Replay: &report.Replay{Kind: "cli", Files: files, Steps: []string{"cd p", "convergen setup.go"}, Observed: clip(e.scrub(res.Stderr, root), 600)}})
+			}
+			if res.Crashed() {
+				report1("crash", clip(res.Stderr, 300))
+				continue
+			}
+			if res.Exit != 0 {
+				e.Rep.Outcome("embedded-method-rejected")
+				continue // whether embedding is accepted at all is C03/C17's business
+			}
+			// the lines at which Inherited and Own (and the former's notation) are written
+			lineOf := func(src, needle string) int {
+				if i := strings.Index(src, needle); i >= 0 {
+					return 1 + strings.Count(src[:i], "\n")
+				}
+				return -1
+			}
+			declSrc := files["p/"+declFile]
+			inhLine := lineOf(declSrc, "\tInherited(")
+			ownLine := lineOf(setup, "\tOwn(")
+			body := func(fn string) string {
+				i := strings.Index(string(out), "func "+fn+"(")
+				if i < 0 {
+					return ""
+				}
+				rest := string(out)[i:]
+				if j := strings.Index(rest, "\n}\n"); j >= 0 {
+					rest = rest[:j]
+				}
+				return rest
+			}
+			for _, fn := range []struct {
+				name, file string
+				line       int
+			}{{"Inherited", declFile, inhLine}, {"Own", "setup.go", ownLine}} {
+				b := body(fn.name)
+				if b == "" {
+					report1("function-missing|"+fn.name, "no function "+fn.name+" in the output")
+					continue
+				}
+				if !strings.Contains(b, "// no match: dst.Extra") {
+					report1("harness|"+fn.name, "dst.Extra was expected to stay unmatched in "+fn.name)
+					continue
+				}
+				abs := filepath.Join(root, "p", fn.file)
+				ok := false
+				var seen []string
+				for _, w := range strings.Split(res.Stderr, "\n") {
+					mm := reWarn.FindStringSubmatch(w)
+					if mm == nil || mm[4] != "dst.Extra" {
+						continue
+					}
+					seen = append(seen, e.scrub(mm[1], root)+":"+mm[2])
+					l, _ := strconv.Atoi(mm[2])
+					if mm[1] == abs && (l == fn.line || (note != "" && fn.name == "Inherited" && l == fn.line-1)) {
+						ok = true
+					}
+				}
+				if !ok {
+					report1("warning-position|"+fn.name, fmt.Sprintf("no warning for dst.Extra of %s at %s:%d (the method%s); warnings seen at %v", fn.name, fn.file, fn.line, map[bool]string{true: " or its notation", false: ""}[note != ""], seen))
+				}
+			}
+		}
+	}
+}
+
 func init() {
 	register("C05", "model_checking", func(e *Env) {
 		th := e.Rep.Thorough()
@@ -303,5 +417,6 @@ func init() {
 			return fs
 		})
 		e.c05PercentPath()
+		e.c05EmbeddedMethods()
 	})
 }
